@@ -31,7 +31,7 @@ REQUIRED = ['C08.pool_map_schedule_indep', 'C08.ensemble_mean', 'C08.flip_member
             'C08.ceemd_noise_distinct_all_stages_of_injective', 'C08.ceemd_noise_distinct_all_stages_iff',
             'C08.ceemd_cols_are_fanout_means', 'C08.ceemd_noise_distinct_every_fanout',
             'C08.ceemd_live_noise_distinct_all_stages', 'C08.ceemd_noise_distinctness_lost_witness',
-            'C08.ceemd_first_stage_double_scaled', 'C08.ensemble_members_distinct_inputs',
+            'C08.ceemd_first_stage_scaled_once', 'C08.pinned_first_fanout_double_scaled', 'C08.ensemble_members_distinct_inputs',
             # cross-model consistency with the Sift model (C01/C03/C04)
             'C08.ensemble_mean_agrees_with_sift_model', 'C08.ensembleSift_agrees_with_sift_model',
             'C08.ensemble_cols_le_cap_classic_sift', 'C08.ensemble_zero_noise_eq_classic_sift',
@@ -52,16 +52,18 @@ TRUSTED = [
     'complete_ensemble_sift: pure-noise sifts are told from member sifts by content (an all-zero input, or an input P whose '
     'P - firstIMF(P) is itself sifted later or is a column of the returned noise); member sifts are grouped into stages by time '
     '(stage k+1 inputs depend on the results of all stage k sifts, so the order of stages is causal)',
-    'MODELLED AS IT IS, not demanded or excluded by C08 (two questionable behaviours of complete_ensemble_sift, both verified on the code '
-    'by tracing the noise; stated about the model by C08.ceemd_first_stage_double_scaled and compared on every run by the CEEMD op): '
-    '(1) the noise matrix is drawn with np.random.random_sample((n, nensembles)) - uniform on [0, 1), mean 1/2, variance 1/12 - whereas '
-    'ensemble_sift draws np.random.randn (zero-mean, unit variance): the model takes the matrix M as an arbitrary input and the harness '
-    'feeds it the traced one, so no theorem depends on the distribution, but in single mode every member noise of a stage has a positive '
-    'offset that the mean over the members does not remove (flip mode cancels it); '
-    '(2) the first fan-out hands _sift_with_noise the ALREADY scaled matrix noise = U * noise_scaling TOGETHER WITH noise_scaling, which '
-    'multiplies once more: stage-0 members sift X +/- noise_scaling^2 * U_i, while the noise-only sifts and every later stage use '
-    'noise_scaling * U_i and its first-IMF residuals, added unscaled (noise_scaling=None). With noise_scaling = X.std() * ensemble_noise '
-    'the first-stage noise amplitude is therefore not proportional to ensemble_noise * X.std() but to its square',
+    'MODELLED AS IT IS, not demanded or excluded by C08 (a questionable behaviour of complete_ensemble_sift, verified on the code '
+    'by tracing the noise): the noise matrix is drawn with np.random.random_sample((n, nensembles)) - uniform on [0, 1), mean 1/2, '
+    'variance 1/12 - whereas ensemble_sift draws np.random.randn (zero-mean, unit variance): the model takes the matrix M as an arbitrary '
+    'input and the harness feeds it the traced one, so no theorem depends on the distribution, but in single mode every member noise of a '
+    'stage has a positive offset that the mean over the members does not remove (flip mode cancels it)',
+    'REPAIRED (repo commit "fix: complete_ensemble_sift adds the (already scaled) noise matrix as it is in the first stage"): the pinned '
+    'first fan-out handed _sift_with_noise the ALREADY scaled matrix noise = U * noise_scaling TOGETHER WITH noise_scaling, which multiplied '
+    'once more: stage-0 members sifted X +/- noise_scaling^2 * U_i (Lean: C08.pinned_first_fanout_double_scaled). With noise_scaling = '
+    'X.std() * ensemble_noise the first-stage noise was proportional to the SQUARE of the signal amplitude: on the corpus signal x 1e-13 with '
+    'ensemble_noise = 0.005 it fell below the rounding of the signal, two of four first-stage members sifted the bare input and only three '
+    'distinct inputs were sifted (the property\'s own words fail; witness in the corpus of stream complete); x 1e6 gave noise ~1e3 times the '
+    'signal. Model and code now add the matrix as it is at every stage (C08.ceemd_first_stage_scaled_once)',
 ]
 ASSUMPTIONS = [
     'PARTIAL: the real OS scheduling of pool workers is sampled (nprocesses 1..8, randomised worker delays), not enumerated; '
@@ -91,15 +93,22 @@ ASSUMPTIONS = [
 ]
 RULE = ('grid: nensembles 1..8 x nprocesses 1..8 x noise_mode {single, flip} x ensemble_noise {0, 0.05, 2.0} x cap {None, 2, 3, 4}; quick samples '
         'the grid, thorough enumerates nensembles x nprocesses x mode x level completely for ensemble_sift and samples complete_ensemble_sift; signals from the tones / chirp / noise / '
-        'walk families, n in 48..128; numpy seed per case; random worker delays in 60% of the cases. Non-trivial: nensembles >= 2, '
+        'walk families, n in 48..128, amplitude x1 / x0.01 / x250 and (20 % + corpus) the same signals in other physical units x1e-13 / x1e-6 / x1e6 '
+        '(there also the level 0.005); all tolerances relative to the signal amplitude; numpy seed per case; random worker delays in 60% of the cases. Non-trivial: nensembles >= 2, '
         'nprocesses >= 2 and non-zero noise. Instance check on the multiset of sifted signals S_j (d_j = S_j - X): single mode = exactly '
         'nensembles signals with pairwise distinct d_j; flip mode = 2*nensembles signals that pair up as (nu, -nu) with pairwise distinct nu; '
         'result = zero-padded per-IMF mean of the public sift of those signals; zero noise = classic sift with the same cap. '
-        'complete_ensemble_sift additionally: per stage the members (residual +/- noise column) have pairwise distinct non-zero noise, and '
-        'the noise matrix of every stage (fan-outs 0..K-1 and the returned matrix) has pairwise distinct non-zero columns.')
+        'At a non-zero level no member sifts the bare input, no two members\' noise are rescaled / shifted / perturbed copies of one '
+        'realisation (|correlation| >= 0.999), and (single mode) the result is not the classic sift; sifts of the bare input beside the '
+        'members (a warm-up run) are set aside; any other number of traced sifts is mechanism-level. '
+        'complete_ensemble_sift additionally: per stage the members (residual +/- noise column) have pairwise distinct non-zero noise; the '
+        'noise a member gets at a later fan-out is what is left of ITS OWN column (never column a minus the first mode of column b: '
+        'scheduling dependent, nprocesses >= 2, replay cases repeat the call up to 6 times); zero noise = the columns of the classic sift; '
+        'mechanism-level: the noise matrix of every stage (fan-outs 0..K-1 and the returned matrix) has pairwise distinct non-zero columns.')
 
 MODEL_DRAW = 'parent'        # where the modelled code draws the member noise ('fork' = pinned code, inside the worker)
 LEVELS = [0.0, 0.05, 2.0]
+UNIT_SCALES = [1e-6, 1e-13, 1e6]      # the same signals in other physical units (volts, tesla, ...)
 IMPL_TIMEOUT = 20          # seconds per traced call (normal calls take < 0.3 s)
 RNG_FUNCS = ('randn', 'standard_normal', 'normal', 'random_sample', 'random', 'rand', 'ranf', 'sample', 'uniform')
 SKIP_UNTRACEABLE = 'skip:public-sift-not-traced'
@@ -169,6 +178,13 @@ def _traced_call(case, fn):
     return res, err, msg, out
 
 
+def _signal(spec):
+    """_msk.make_signal, plus 'explicit' signals given by their samples (witnesses found outside the families)"""
+    if spec.get('fam') == 'explicit':
+        return np.ascontiguousarray(np.array(spec['v'], dtype=float) * float(spec.get('scale', 1.0)))
+    return _msk.make_signal(spec)
+
+
 def _opts(case):
     return dict(_msk.IMF_OPTS[case.get('opts', 0)])
 
@@ -226,6 +242,12 @@ def _rng_units(out, n):
     return units
 
 
+def _amp(x, extra=0.0):
+    """amplitude the tolerances are relative to: the signal's own (the quantifier ranges over signals of any physical
+    unit - 1e-13 as well as 1e6 - so there is no absolute floor), plus the noise amplitude where noise is added"""
+    return max(_msk.max_abs(x) + float(extra), 1e-300)
+
+
 def _mag(*arrs):
     return max([_msk.max_abs(a) for a in arrs] + [0.0])
 
@@ -264,6 +286,26 @@ def _same_noise_classes(nus, tol, up_to_sign, ignore=None):
                     break
         cls.append(c if c is not None else (max(cls) + 1 if cls else 0))
     return cls
+
+
+def _dependent_copies(nus, thr=0.999):
+    """pairs (i, k, r) of noise arrays that are rescaled / shifted / sign-flipped / slightly perturbed copies of one
+    another: |Pearson correlation| >= thr. Independent realisations of n >= 48 samples have |r| of the order
+    1/sqrt(n) (|r| >= 0.999 has no measurable probability); constant arrays are left out."""
+    out = []
+    c = []
+    for a in nus:
+        a = np.asarray(a, dtype=float)
+        a = a - a.mean() if len(a) else a
+        nrm = float(np.sqrt(np.sum(a * a))) if len(a) else 0.0
+        c.append(a / nrm if nrm > 0 and np.isfinite(nrm) else None)
+    for i in range(len(c)):
+        for k in range(i):
+            if c[i] is not None and c[k] is not None and len(c[i]) >= 16:
+                r = float(np.sum(c[i] * c[k]))
+                if abs(r) >= thr:
+                    out.append((k, i, r))
+    return out
 
 
 def _multiset_match(A, B, tol):
@@ -327,7 +369,9 @@ class _Base(Stream):
         return self._cache[k]
 
     def tags(self, case, out):
-        t = ['N=%d' % case['N'], 'nproc=%d' % case['nproc'], 'mode=' + case['mode'], 'level=%s' % case['level'],
+        sc = case['sig'].get('scale', 1.0)
+        t = ['signal-units=' + ('x%g' % sc if sc in UNIT_SCALES else 'order-one(x0.01..x250)'),
+             'N=%d' % case['N'], 'nproc=%d' % case['nproc'], 'mode=' + case['mode'], 'level=%s' % case['level'],
              'cap=%s' % case.get('cap'), 'delay' if case.get('delay') else 'no-delay']
         if isinstance(out, ImplError):
             t.append('harness-error=' + out['error'])
@@ -345,7 +389,10 @@ class _Base(Stream):
 
     def shrink(self, case):
         if case['sig']['n'] > 48:
-            yield dict(case, sig=dict(case['sig'], n=48))
+            if case['sig'].get('fam') == 'explicit':
+                yield dict(case, sig=dict(case['sig'], n=48, v=case['sig']['v'][:48]))
+            else:
+                yield dict(case, sig=dict(case['sig'], n=48))
         if case.get('delay'):
             yield dict(case, delay=False)
         if case['N'] > 2:
@@ -383,6 +430,14 @@ class Ensemble(_Base):
              'level': 0.05, 'cap': 6, 'seed': 4, 'opts': 0, 'delay': False},
             # one pool chunk holds several jobs (nensembles > 4 * nprocesses): jobs of a chunk share one unpickled X
             dict(base, N=6, nproc=1, mode='flip'), dict(base, N=7, nproc=1, mode='single', level=2.0),
+            # the same signal in other physical units: a non-zero noise LEVEL is relative to the signal's own spread, so
+            # the members are noisy and pairwise different whatever the amplitude (round-4 change: an absolute
+            # `isclose(noise_scaling, 0)` shortcut gave 1e-13 / 1e-6 scaled signals no noise at all)
+            dict(base, sig=dict(s, scale=1e-13), N=3, nproc=2), dict(base, sig=dict(s, scale=1e-13), N=4, nproc=3, mode='flip', level=2.0),
+            dict(base, sig=dict(s, scale=1e-13), N=1, nproc=1, level=0.05),
+            dict(base, sig=dict(s, scale=1e-6), N=3, nproc=2, level=0.005), dict(base, sig=dict(s, scale=1e-6), N=2, nproc=1, level=0.005, mode='flip'),
+            dict(base, sig=dict(s, scale=1e6), N=3, nproc=2, level=0.05), dict(base, sig=dict(s, scale=1e6), N=2, nproc=2, level=0.0),
+            dict(base, sig=dict(s, scale=1e-13), N=2, nproc=2, level=0.0),
         ]
 
     def generate(self, rng, tier):
@@ -391,6 +446,10 @@ class Ensemble(_Base):
         def mk(N, nproc, mode, level):
             sig = _msk.rand_signal_spec(rng, sizes)
             sig['fam'] = rng.choice(['tones', 'tones', 'chirp', 'noise', 'walk'])
+            if rng.random() < 0.2:
+                sig['scale'] = rng.choice(UNIT_SCALES)
+                if level > 0 and rng.random() < 0.5:
+                    level = 0.005      # a small level on a small signal: noise amplitude far below any absolute threshold
             return {'sig': sig, 'N': N, 'nproc': nproc, 'mode': mode, 'level': level,
                     'cap': rng.choice([None, 2, 3, 4, 3]), 'seed': rng.randrange(1 << 31),
                     'opts': rng.choice([0, 0, 2, 3, 4]), 'delay': rng.random() < 0.6}
@@ -406,7 +465,7 @@ class Ensemble(_Base):
                          rng.choice([0.0, 0.05, 0.05, 2.0, 2.0]))
 
     def impl(self, case):
-        x = _msk.make_signal(case['sig'])
+        x = _signal(case['sig'])
         res, err, msg, events = _traced_call(case, lambda emd: emd.sift.ensemble_sift(
             x, nensembles=case['N'], ensemble_noise=case['level'], noise_mode=case['mode'],
             nprocesses=case['nproc'], max_imfs=case['cap'], imf_opts=_opts(case) or None))
@@ -419,19 +478,28 @@ class Ensemble(_Base):
     # -- analysis of one traced run (cached)
     def _analyse(self, case, out):
         def run():
-            x = _msk.make_signal(case['sig'])
+            x = _signal(case['sig'])
             n, N = len(x), case['N']
             scale = float(x.std() * case['level'])
             opts = _opts(case)
             flip = case['mode'] == 'flip'
             per = 2 if flip else 1
             sig, other = _sifted(out, n)
+            traced = len(sig)
+            extra = 0
+            if scale > 0 and len(sig) > N * per:
+                # the property speaks about one noise realisation per member: sifts of OTHER inputs (here: of the
+                # input itself, nothing added - a warm-up / sizing run) are no member sifts and must not matter
+                keep = [e for e in sig if float(np.max(np.abs(e['v'] - x))) > 1e-12 * max(_mag(x), 1e-300)]
+                if len(keep) == N * per:
+                    extra, sig = len(sig) - len(keep), keep
             S = [e['v'] for e in sig]
             d = [s - x for s in S]
             tol = 1e-12 * max(_mag(x) + _mag(*d), 1e-300)
             an = {'x': x, 'scale': scale, 'tol': tol, 'sig': sig, 'd': d, 'other': other, 'expected': N * per,
-                  'traceable': len(S) > 0, 'count_ok': len(S) == N * per, 'members': None, 'unmatched': [],
-                  'decs': None, 'widths': [], 'attributed': False, 'units': _rng_units(out, n)}
+                  'traceable': traced > 0, 'count_ok': len(S) == N * per, 'members': None, 'unmatched': [],
+                  'decs': None, 'widths': [], 'attributed': False, 'units': _rng_units(out, n),
+                  'extra_sifts_of_input': extra, 'traced': traced}
             # the public sift of every signal that was sifted (the property's member decompositions)
             if S and (an['count_ok'] or scale == 0):
                 an['decs'] = [_classic(s, case['cap'], opts) for s in S]
@@ -472,6 +540,7 @@ class Ensemble(_Base):
                 else:
                     ms.sort(key=lambda m: m['t'])
                 an['classes'] = _same_noise_classes([m['nu'] for m in ms], tol, flip)
+                an['copies'] = _dependent_copies([m['nu'] for m in ms])
             return an
         return self._memo(case, run)
 
@@ -500,7 +569,7 @@ class Ensemble(_Base):
         an = self._analyse(case, out)
         x, scale, n, N = an['x'], an['scale'], len(an['x']), case['N']
         flip = case['mode'] == 'flip'
-        tol = _msk.TOL * max(1.0, _msk.max_abs(x) + 6 * scale)
+        tol = _msk.TOL * _amp(x, 6 * scale)
         if scale == 0:
             # zero noise: the model's members all sift x itself; the oracle table holds the classic sift of x
             # (the harness's own call of the public sift) and whatever was traced
@@ -573,7 +642,7 @@ class Ensemble(_Base):
             return 'ENS: %s' % ens.raw[:160]
         if int(ens.args['k']) != len(out['cols']):
             return 'columns: model %s impl %d (widths of the sifted signals %s)' % (ens.args['k'], len(out['cols']), an['widths'])
-        tol = _msk.TOL * max(1.0, _msk.max_abs(an['x']) + 6 * an['scale'])
+        tol = _msk.TOL * _amp(an['x'], 6 * an['scale'])
         for j, c in enumerate(out['cols']):
             if not _msk.frac_close(ens.vecs[j], c, tol):
                 return 'ensemble column %d differs from the model mean' % j
@@ -583,7 +652,8 @@ class Ensemble(_Base):
 
     def holds(self, case, out):
         if isinstance(out, ImplError):
-            return [Failure('trace-failed:' + out['error'], out['msg'])]
+            # the tracer / harness failed (framework time-out, pickling of the trace): not the property's words
+            return [Failure('trace-failed:' + out['error'], out['msg'], literal=False)]
         an = self._analyse(case, out)
         x, n, N = an['x'], len(an['x']), case['N']
         flip = case['mode'] == 'flip'
@@ -591,8 +661,11 @@ class Ensemble(_Base):
         # -- own noise realisation per member (needs the sifted signals; nothing traced = skipped and counted)
         if case['level'] > 0 and an['traceable'] and not out.get('error'):
             if not an['count_ok']:
+                # mechanism-level: HOW MANY calls of the public sift a run makes is not the property's subject (a
+                # member run through a private core, a retry, a probe run of another signal); sifts of the bare input
+                # were already set aside. The members cannot be told apart here, so nothing literal is claimed.
                 fs.append(Failure('wrong-number-of-member-sifts', '%d signals were sifted for nensembles=%d in %s mode (expected %d)'
-                                  % (len(an['sig']), N, case['mode'], an['expected'])))
+                                  % (len(an['sig']), N, case['mode'], an['expected']), literal=False))
             elif an['members'] is None:
                 fs.append(Failure('flip-second-run-not-sign-flipped-noise',
                                   '%d of the %d sifted signals have no partner x - nu for their x + nu'
@@ -605,15 +678,33 @@ class Ensemble(_Base):
                                       '(nprocesses=%d, mode=%s); sharing pattern %s by worker %s'
                                       % (len(set(cl)), len(ms), len(set(m['w'] for m in ms)), case['nproc'], case['mode'],
                                          _partition(cl), [m['w'] for m in ms])))
+                elif an['scale'] > 0 and any(_msk.max_abs(m['nu']) == 0 for m in an['members']):
+                    k0 = sum(1 for m in an['members'] if _msk.max_abs(m['nu']) == 0)
+                    fs.append(Failure('member-sifted-without-noise', '%d of the %d members sifted the input itself although the noise '
+                                      'level is %s (noise amplitude %.3g for a signal of amplitude %.3g)'
+                                      % (k0, len(an['members']), case['level'], an['scale'], _msk.max_abs(x))))
+                elif an.get('copies'):
+                    a, b, r = an['copies'][0]
+                    fs.append(Failure('members-share-noise:rescaled-or-shifted-copy',
+                                      'the noise of members %d and %d is one realisation up to scale / offset / sign / a tiny '
+                                      'perturbation (correlation %.6f over %d samples; %d such pairs among %d members)'
+                                      % (a, b, r, n, len(an['copies']), len(an['members']))))
         if out.get('error'):
             if self._pinned_d3(case, out, an):
                 return fs
             if out['error'] == 'EMDSiftCovergeError':
                 return fs      # documented non-convergence error of an underlying extraction: C04's matter, not C08's
+            if out['error'] == 'Timeout':
+                # run time is not the property's subject (the call forks up to 8 workers under a 20 s wall-clock budget)
+                fs.append(Failure('raises:Timeout', out['msg'], literal=False))
+                return fs
             kind = 'raises:' + out['error']
+            lit = True
             if out['error'] == 'ValueError' and flip and 'broadcast' in out['msg']:
+                # +/- runs of different width: "the mean of the two decompositions" is not defined by the property
                 kind += ':flip-runs-differ-in-column-count'
-            fs.append(Failure(kind, out['msg']))
+                lit = False
+            fs.append(Failure(kind, out['msg'], literal=lit))
             return fs
         cols = [np.array(c) for c in out['cols']]
         # -- result = per-IMF mean over the members, recomputed with the public sift from the sifted signals
@@ -621,7 +712,7 @@ class Ensemble(_Base):
         if an['decs'] is not None and not self._pinned_d3(case, out, an):
             K = max(an['widths'])
             want = _zero_padded_mean(n, an['decs'], K)
-            tol = _msk.TOL * max(1.0, _msk.max_abs(x) + 6 * an['scale'])
+            tol = _msk.TOL * _amp(x, 6 * an['scale'])
             if len(cols) != len(want):
                 fs.append(Failure('ensemble-wrong-column-count', '%d columns, the sifted signals have %s, cap %s'
                                   % (len(cols), an['widths'], case['cap'])))
@@ -635,9 +726,25 @@ class Ensemble(_Base):
                         fs.append(Failure(kind, 'column %d deviates %.3g from the mean over the %d decompositions recomputed '
                                           'from the sifted signals' % (j, dev, len(an['decs']))))
                         break
+        if case['level'] > 0 and an['scale'] > 0 and cols:
+            # a non-zero noise level (relative to the signal's own spread) perturbs every member: whatever was traced, a
+            # result that IS the classic sift of the input to within rounding was made without any noise. Literal in
+            # single mode (mean_i sift(x + nu_i) = sift(x) needs mean_i nu_i = 0). In flip mode small noise cancels
+            # exactly when it moves no extremum and no stop decision (the sift is then linear in its input: witnessed on
+            # the unchanged code, scale 1e-6, level 0.005), so there the verdict needs the trace - only the bare input
+            # was sifted - and stays mechanism-level.
+            ref = _classic(x, case['cap'], _opts(case))
+            if len(ref) == len(cols) and all(float(np.max(np.abs(a - b))) <= 1e-12 * _amp(x) for a, b in zip(ref, cols)):
+                allsig = _sifted(out, n)[0]
+                bare = sum(1 for e in allsig if float(np.max(np.abs(e['v'] - x))) == 0)
+                if not flip or (allsig and bare == len(allsig)):
+                    fs.append(Failure('nonzero-noise-level-but-result-is-the-classic-sift',
+                                      'ensemble_noise=%s on a signal of amplitude %.3g (noise amplitude %.3g): the result equals '
+                                      'sift(x, max_imfs=%s) to within 1e-12 relative; %d sifted signals traced, %d of them the input itself'
+                                      % (case['level'], _msk.max_abs(x), an['scale'], case['cap'], len(allsig), bare), literal=not flip))
         if case['level'] == 0:
             ref = _classic(x, case['cap'], _opts(case))
-            ztol = 1e-12 * max(1.0, _msk.max_abs(x))
+            ztol = 1e-12 * _amp(x)
             same_prefix = all(np.max(np.abs(a - b)) <= ztol for a, b in zip(ref, cols))
             if len(cols) > len(ref) and same_prefix and all(np.max(np.abs(c)) == 0 for c in cols[len(ref):]):
                 fs.append(Failure('zero-noise-trailing-zero-columns',
@@ -665,6 +772,8 @@ class Ensemble(_Base):
                 t.append('noise-attributed-to-rng-draws' if an['attributed'] else 'noise-not-attributed-to-rng-draws')
             if an['other']:
                 t.append('sifts-of-other-signals')
+            if an.get('extra_sifts_of_input'):
+                t.append('extra-sifts-of-the-bare-input-set-aside')
             # successive draws of one process are distinct (assumption of the distinctness theorem; about numpy, not emd)
             seen = set()
             for u in an['units']:
@@ -685,21 +794,36 @@ class Complete(_Base):
     def corpus(self):
         s = {'fam': 'tones', 'n': 64, 'seed': 22, 'scale': 1.0}
         base = {'sig': s, 'N': 4, 'nproc': 4, 'mode': 'single', 'level': 0.2, 'cap': 2, 'seed': 99, 'delay': False}
+        t = np.linspace(0, 2, 128)
         return [base, dict(base, nproc=1), dict(base, mode='flip', nproc=3, N=5), dict(base, level=0.0, N=2, nproc=2),
                 dict(base, N=1, nproc=2, level=2.0), dict(base, N=8, nproc=8, cap=None, level=0.05),
-                dict(base, N=6, nproc=1, mode='flip', cap=3)]
+                dict(base, N=6, nproc=1, mode='flip', cap=3),
+                # the same signal in other physical units. D-C08-ceemd (repaired): the first fan-out scaled the noise twice,
+                # so on a 1e-13 signal with a small level the noise fell below the rounding of the signal - two of four
+                # stage-0 members sifted the bare input, three distinct inputs for four members (first case = the witness)
+                {'sig': {'fam': 'explicit', 'n': 128, 'seed': 0, 'scale': 1e-13,
+                         'v': _msk.vlist(np.sin(2 * np.pi * 5 * t) + .6 * np.cos(2 * np.pi * 23 * t) + t)},
+                 'N': 4, 'nproc': 1, 'mode': 'single', 'level': 0.005, 'cap': 2, 'seed': 1, 'delay': False},
+                dict(base, sig=dict(s, scale=1e-13), level=0.005), dict(base, sig=dict(s, scale=1e-13), level=0.05, mode='flip', N=3, nproc=2),
+                dict(base, sig=dict(s, scale=1e-6), level=0.005, N=3, nproc=2), dict(base, sig=dict(s, scale=1e6), level=0.05, N=3, nproc=3),
+                dict(base, sig=dict(s, scale=1e6), level=2.0, N=2, nproc=2, mode='flip'), dict(base, sig=dict(s, scale=1e-13), level=0.0, N=2)]
 
     def generate(self, rng, tier):
         sizes = [48, 64, 96]
         for _ in range(160 if tier == 'thorough' else 22):
             sig = _msk.rand_signal_spec(rng, sizes)
             sig['fam'] = rng.choice(['tones', 'tones', 'chirp', 'noise', 'walk'])
+            level = rng.choice([0.0, 0.05, 0.05, 2.0, 2.0])
+            if rng.random() < 0.2:
+                sig['scale'] = rng.choice(UNIT_SCALES)
+                if level > 0 and rng.random() < 0.5:
+                    level = 0.005
             yield {'sig': sig, 'N': rng.randint(1, 8), 'nproc': rng.randint(1, 8), 'mode': rng.choice(['single', 'flip']),
-                   'level': rng.choice([0.0, 0.05, 0.05, 2.0, 2.0]), 'cap': rng.choice([None, 1, 2, 3]),
+                   'level': level, 'cap': rng.choice([None, 1, 2, 3]),
                    'seed': rng.randrange(1 << 31), 'delay': rng.random() < 0.6}
 
-    def impl(self, case):
-        x = _msk.make_signal(case['sig'])
+    def _impl_once(self, case):
+        x = _signal(case['sig'])
         res, err, msg, events = _traced_call(case, lambda emd: emd.sift.complete_ensemble_sift(
             x, nensembles=case['N'], ensemble_noise=case['level'], noise_mode=case['mode'],
             nprocesses=case['nproc'], max_imfs=case['cap']))
@@ -710,10 +834,28 @@ class Complete(_Base):
             out['noise'] = [_msk.vlist(noise[:, j]) for j in range(noise.shape[1])]
         return out
 
+    def impl(self, case):
+        # The quantifier ranges over "all job-to-worker assignments the pool produces": what one call does depends on
+        # the scheduling of that call. A case may therefore ask for several calls (`repeat`, set by the shrinker so
+        # that a replay file reproduces a scheduling-dependent failure): the first call whose member noise is not the
+        # members' own (see `mixed`) or that raises is the one reported, else the last one.
+        out = None
+        for attempt in range(max(1, int(case.get('repeat') or 1))):
+            out = self._impl_once(case)
+            if attempt + 1 >= int(case.get('repeat') or 1) or out.get('error'):
+                break
+            if self._analyse_run(case, out).get('mixed'):
+                break
+        out['attempts'] = attempt + 1
+        return out
+
     def _analyse(self, case, out):
+        return self._memo(case, lambda: self._analyse_run(case, out))
+
+    def _analyse_run(self, case, out):
         def run():
             import emd
-            x = _msk.make_signal(case['sig'])
+            x = _signal(case['sig'])
             n, N = len(x), case['N']
             scale = float(x.std() * case['level'])
             flip = case['mode'] == 'flip'
@@ -759,8 +901,29 @@ class Complete(_Base):
                     pure.append(True)                       # its remainder is sifted later / returned
                 else:                                       # it is the remainder of an earlier noise sift
                     pure.append(any(j != i and nz[j] and float(np.max(np.abs(s - nxt[j]))) <= tol for j in range(len(S))))
-            an['pure'] = pure
             members = [i for i in range(len(S)) if not pure[i]]      # in time order
+            an['by_rounds'] = False
+            if len(members) != K * N * per and len(S) == K * N * (per + 1) and scale > 0:
+                # The content rule needs every sifted noise column's own remainder to turn up again. When it does not
+                # (that is what the check below is about), fall back on the barrier structure of a run: every fan-out is
+                # collected completely before the next one is handed out, so in time order the trace is K rounds of
+                # N*per member sifts followed by N noise-only sifts. Accepted only if every stage-0 member signal is the
+                # input +/- a multiple of one of the columns sifted in the first noise round.
+                rp = []
+                for k in range(K):
+                    rp += [False] * (N * per) + [True] * N
+                P0 = [S[i] for i in range(N * per, N * (per + 1))]
+
+                def multiple_of_some(e):
+                    for q in P0:
+                        qq = float(np.dot(q, q))
+                        if qq > 0 and float(np.max(np.abs(e - (float(np.dot(e, q)) / qq) * q))) <= 1e-9 * max(_mag(e), 1e-300):
+                            return True
+                    return False
+                if all(multiple_of_some(S[i] - x) for i in range(N * per)):
+                    pure, an['by_rounds'] = rp, True
+                    members = [i for i in range(len(S)) if not pure[i]]
+            an['pure'] = pure
             if len(members) != K * N * per:
                 an['why'] = 'member-sift-count-%s-for-%d-stages' % ('low' if len(members) < K * N * per else 'high', K)
                 return an
@@ -783,7 +946,28 @@ class Complete(_Base):
                 stages.append(st)
             an['stages'] = stages
             an['stage_noise'], an['stage_noise_why'] = _stage_noise_matrices(S, pure, nxt, ret_noise, K, N, tol)
-            # stage-0 noise columns as the model sees them: member noise = +/- scale * (a noise column P that is sifted itself)
+            # own noise realisation at the LATER fan-outs: the noise matrix handed to the members of stage k+1 holds, per
+            # member, what is left of that member's column after its own first mode was taken out. A column that is
+            # instead (column of member a) - (first mode of the column of ANOTHER member b) mixes two members'
+            # realisations; it is reported when a member of stage k+1 was demonstrably sifted with it.
+            an['mixed'] = []
+            mats = an['stage_noise']
+            if mats is not None and scale > 0:
+                pidx = [i for i in range(len(S)) if pure[i]]
+                for k in range(K - 1):
+                    rnd = pidx[k * N:(k + 1) * N]
+                    tk = 1e-12 * max(_mag(*[S[i] for i in rnd]), _mag(resid[k + 1]), 1e-300)     # stage-local tolerance
+                    for c, q in enumerate(mats[k + 1]):
+                        if _msk.max_abs(q) == 0 or any(float(np.max(np.abs(q - nxt[i]))) <= max(tol, tk) for i in rnd):
+                            continue
+                        hit = next(((a, b) for a in range(N) for b in range(N) if a != b and
+                                    float(np.max(np.abs(q - (S[rnd[a]] - first[rnd[b]])))) <= tk), None)
+                        if hit is None:
+                            continue
+                        if any(float(np.max(np.abs(e - q))) <= tk or float(np.max(np.abs(e + q))) <= tk for e in stages[k + 1]['e']):
+                            own = min(float(np.max(np.abs(q - nxt[i]))) for i in rnd)
+                            an['mixed'].append({'stage': k + 1, 'col': c, 'a': hit[0], 'b': hit[1], 'dev': own})
+            # stage-0 noise columns as the model sees them: member noise = +/- (a noise column P that is sifted itself)
             st0 = stages[0]
             if st0['reps'] is not None:
                 P = [S[i] for i in range(len(S)) if pure[i]]
@@ -794,8 +978,8 @@ class Complete(_Base):
                         hit = np.zeros(n)
                     else:
                         for p_ in P:
-                            if float(np.max(np.abs(st0['e'][r] - scale * p_))) <= tol or \
-                                    (flip and float(np.max(np.abs(st0['e'][r] + scale * p_))) <= tol):
+                            if float(np.max(np.abs(st0['e'][r] - p_))) <= tol or \
+                                    (flip and float(np.max(np.abs(st0['e'][r] + p_))) <= tol):
                                 hit = p_
                                 break
                     noise0.append(hit)
@@ -807,7 +991,7 @@ class Complete(_Base):
                     else:
                         an['noise_attributed'] = True
             return an
-        return self._memo(case, run)
+        return run()
 
     def ops(self, case, out):
         if isinstance(out, ImplError) or out.get('error'):
@@ -828,7 +1012,7 @@ class Complete(_Base):
         for i in tf + tn:
             vecs += [_msk.vlist(S[i]), _msk.vlist(an['first'][i])]
         return [proto.op('CEEMD', {'n': N, 'flip': 1 if case['mode'] == 'flip' else 0, 'scale': scale,
-                                   'tol': _msk.TOL * max(1.0, _msk.max_abs(x) + scale), 'stages': len(an['stages']) - 1,
+                                   'tol': _msk.TOL * _amp(x, scale), 'stages': len(an['stages']) - 1,
                                    'nf': len(tf), 'nn': len(tn), 'rot': case['nproc']}, vecs)]
 
     def compare(self, case, out, results):
@@ -853,7 +1037,7 @@ class Complete(_Base):
         K = len(out['cols'])
         if int(r.args['k']) != K:
             return 'columns: model %s impl %d' % (r.args['k'], K)
-        tol = _msk.TOL * max(1.0, _msk.max_abs(an['x']) + an['scale'])
+        tol = _msk.TOL * _amp(an['x'], an['scale'])
         for j, c in enumerate(out['cols']):
             if not _msk.frac_close(r.vecs[j], c, tol):
                 return 'column %d differs from the model mean over members' % j
@@ -873,23 +1057,50 @@ class Complete(_Base):
 
     def holds(self, case, out):
         if isinstance(out, ImplError):
-            return [Failure('trace-failed:' + out['error'], out['msg'])]
+            return [Failure('trace-failed:' + out['error'], out['msg'], literal=False)]     # tracer / harness failure
         if out.get('error'):
             if out['error'] == 'EMDSiftCovergeError':
                 return []      # documented non-convergence error of an underlying extraction (C04)
-            return [Failure('raises:' + out['error'], out['msg'])]
+            # run time is not the property's subject (20 s wall clock for a call that forks up to 8 workers)
+            return [Failure('raises:' + out['error'], out['msg'], literal=out['error'] != 'Timeout')]
         an = self._analyse(case, out)
         fs = []
+        x, flip = an["x"], case['mode'] == 'flip'
+        if case['level'] == 0 and out.get('cols'):
+            # zero noise amplitude: every member of every stage sifts the running residual itself, so the columns are
+            # those of the classic sift (to within rounding; compared on the columns both runs produce - when to stop
+            # is C03's subject)
+            ref = _classic(x, case['cap'], {})
+            cols = [np.array(c) for c in out['cols']]
+            ztol = _msk.TOL * _amp(x)
+            for j in range(min(len(ref), len(cols))):
+                dev = float(np.max(np.abs(ref[j] - cols[j])))
+                if dev > ztol:
+                    fs.append(Failure('zero-noise-differs-from-classic-sift', 'complete_ensemble_sift(ensemble_noise=0): column %d '
+                                      'deviates %.3g from column %d of sift(x, max_imfs=%s)' % (j, dev, j, case['cap'])))
+                    break
         if not an['recognised']:
             return fs            # skipped and counted by compare()
-        x, flip = an["x"], case['mode'] == 'flip'
-        tol = _msk.TOL * max(1.0, _msk.max_abs(x) + an['scale'])
+        if an.get('by_rounds'):
+            # stages told apart by the pool rounds only (the content rule did not close): nothing but the own-remainder
+            # check, which is what that recognition exists for, is judged on such a run
+            return fs + self._mixed_failure(case, out, an)
+        tol = _msk.TOL * _amp(x, an['scale'])
         for k, st in enumerate(an['stages']):
             if flip and st['unmatched']:
                 fs.append(Failure('flip-second-run-not-sign-flipped-noise',
                                   'stage %d: %d of the %d member signals have no partner residual - nu for their residual + nu'
                                   % (k, len(st['unmatched']), len(st['idx']))))
                 break
+        st0 = an['stages'][0]
+        if case['level'] > 0 and an['scale'] > 0 and any(st0['negligible']):
+            # the drawn matrix (stage 0) is the members' noise: at a non-zero level, relative to the signal's own spread,
+            # every member's is far above rounding whatever the amplitude of the signal (later stages: see below)
+            k0 = sum(1 for v in st0['negligible'] if v)
+            fs.append(Failure('member-sifted-without-noise', 'stage 0: %d of the %d member signals are the input itself to within '
+                              '1e-9 of its amplitude although the noise level is %s (noise amplitude %.3g, signal amplitude %.3g); '
+                              '%d distinct inputs' % (k0, len(st0['e']), case['level'], an['scale'], _msk.max_abs(x),
+                                                      len({np.asarray(v).tobytes() for v in st0['e']}))))
         if case['level'] > 0:
             for k, st in enumerate(an['stages']):
                 # a noise column whose modes are exhausted becomes exactly zero in later stages (that is the algorithm);
@@ -901,6 +1112,18 @@ class Complete(_Base):
                     fs.append(Failure('members-share-noise', 'stage %d: %d distinct noise arrays for %d members with non-zero noise'
                                       % (k, len(set(cl)), len(cl))))
                     break
+            # rescaled / shifted / perturbed copies of one realisation: judged on the drawn matrix (stage 0) only - the
+            # later matrices hold what is left of a column after its fast modes are gone (slow trends correlate by nature)
+            st0 = an['stages'][0]
+            if not fs and st0['reps'] is not None:
+                live = [st0['e'][r] for r in st0['reps'] if not st0['negligible'][r]]
+                cp = _dependent_copies(live)
+                if cp:
+                    fs.append(Failure('members-share-noise:rescaled-or-shifted-copy',
+                                      'stage 0: the noise of members %d and %d is one realisation up to scale / offset / sign / a '
+                                      'tiny perturbation (correlation %.6f; %d such pairs among %d members)'
+                                      % (cp[0][0], cp[0][1], cp[0][2], len(cp), len(live))))
+            fs += self._mixed_failure(case, out, an)
         # hypothesis of C08.ceemd_noise_distinct_all_stages / ceemd_noise_distinct_every_fanout, as observed: the noise
         # matrix of EVERY stage (fan-outs 0..K-1 and the returned one) has pairwise distinct columns. Columns that are
         # exactly zero are exhausted (own first IMF removed): they coincide by the algorithm, are reported as a tag and
@@ -910,8 +1133,10 @@ class Complete(_Base):
                 dup, _ = _column_duplicates(mat)
                 if dup:
                     where = 'returned noise matrix' if k == len(an['stages']) else 'noise matrix of fan-out %d' % k
+                    # hypothesis of the all-stages distinctness theorem as observed on the parent's matrices (incl. the
+                    # RETURNED one, which no member sifts): mechanism-level; the property's words are `members-share-noise`
                     fs.append(Failure('ceemd:stage-noise-duplicate', '%s: columns %s coincide (%d columns, non-zero)'
-                                      % (where, dup[:3], len(mat))))
+                                      % (where, dup[:3], len(mat)), literal=False))
                     break
         for k, st in enumerate(an['stages']):
             want = np.mean([an['first'][i] for i in st['idx']], axis=0)
@@ -922,6 +1147,28 @@ class Complete(_Base):
                                   % (k, dev, len(st['idx']))))
                 break
         return fs
+
+    def _mixed_failure(self, case, out, an):
+        if not an.get('mixed'):
+            return []
+        m = an['mixed'][0]
+        return [Failure('ceemd-member-noise-mixes-two-members-realisations',
+                        'stage %d (nprocesses=%d, call %s of this case): a member is sifted with column %d of the noise matrix of that '
+                        'stage, which is (noise column of member %d after stage %d) - (first mode of the noise column of '
+                        'member %d): not that member\'s own realisation with its own first mode removed (differs from every '
+                        'own remainder by >= %.3g); %d such columns in this run'
+                        % (m['stage'], case['nproc'], out.get('attempts', 1), m['col'], m['a'], m['stage'] - 1, m['b'],
+                           m['dev'], len(an['mixed'])))]
+
+    def shrink(self, case):
+        # scheduling-dependent failures: first make the case ask for several delayed calls, so that the smaller
+        # variants (and the replay file) reproduce it with high probability
+        if case['nproc'] >= 2 and int(case.get('repeat') or 1) < 6:
+            yield dict(case, repeat=6, delay=True)
+        for c in super().shrink(case):
+            if c.get('repeat') and not c.get('delay'):
+                continue
+            yield c
 
     def tags(self, case, out):
         t = super().tags(case, out)
@@ -939,6 +1186,11 @@ class Complete(_Base):
                     t.append('noise-attributed-to-rng-draws' if an['noise_attributed'] else 'noise-not-attributed-to-rng-draws')
                 if any(any(st['negligible']) for st in an['stages']) and case['level'] > 0:
                     t.append('exhausted-noise-column')
+                if an.get('by_rounds'):
+                    t.append('stages-recognised-by-pool-rounds')
+                if case['level'] > 0 and case['nproc'] >= 2 and case['N'] >= 2 and len(an['stages']) >= 2 \
+                        and an.get('stage_noise') is not None:
+                    t.append('later-fan-out-noise-checked-against-own-remainders(nproc>=2)')
                 if case['level'] > 0:
                     if an.get('stage_noise') is None:
                         t.append('stage-noise-matrices-not-recognised:' + an.get('stage_noise_why', '?'))
@@ -959,3 +1211,18 @@ class Complete(_Base):
 
 
 STREAMS = [Ensemble(), Complete()]
+
+
+def _guard(fn):
+    """An exception inside an instance check is a harness fault (an oracle tripping over an unexpected but legal
+    output container), not the property's words failing: reported as mechanism-level, never as a violation."""
+    def holds(self, case, out):
+        try:
+            return fn(self, case, out)
+        except Exception as e:  # noqa
+            return [Failure('instance-check-crashed', repr(e), literal=False)]
+    return holds
+
+
+for _cls in {_b for _s in STREAMS for _b in type(_s).__mro__ if _b.__module__ == __name__ and 'holds' in _b.__dict__}:
+    _cls.holds = _guard(_cls.holds)
